@@ -143,7 +143,16 @@ func CompareEval(d *Driver, src string, o RunOpts) EvalCmp {
 		c.Skipped = "invalid-utf8"
 		return c
 	}
-	m := EvalModel(d, ser, EvalModelOpts{StopAt: o.StopAt, FailFast: o.FailFast, NoSummary: o.NoSummary, Input: o.Input, Events: o.Events, Fuel: 4 * o.MaxYield})
+	// the recording platform raises the stop flag at yield MaxYield (budget); the model gets the
+	// same stop point, so its total work is bounded too (fuel only bounds recursion depth)
+	stopAt := o.StopAt
+	if stopAt == 0 || stopAt > o.MaxYield {
+		stopAt = o.MaxYield
+	}
+	m := EvalModel(d, ser, EvalModelOpts{StopAt: stopAt, FailFast: o.FailFast, NoSummary: o.NoSummary, Input: o.Input, Events: o.Events, Fuel: 4*o.MaxYield + 200000})
+	if m.Class == "stopped" && m.Yields >= o.MaxYield && (o.StopAt == 0 || o.StopAt > o.MaxYield) {
+		m.Class = "timeout"
+	}
 	c.Model = m
 	if m.Err != "" {
 		c.ModelObs = "ERR " + m.Err
